@@ -9,6 +9,7 @@ from ..flow import guards_at, flatten_guards, always_raises
 from ..callgraph import CallGraph
 from ..excflow import ExcFlow, named_groups
 from ..tables import tables_of
+from ..constfold import try_fold
 from ..mutate import Mutant, in_func
 from . import c10
 from ..report import Result
@@ -572,6 +573,118 @@ def rule_r10(prog, res):
               'native window (C02-R4)', 'C02', c02.rule_r4, prog, Result)
 
 
+# ------------------------------------------------------------------ R11
+def rule_r11(prog, res):
+    res.rule('R11', 'the date/time lexical patterns admit the whole XSD '
+             'value space of offsets, months, days, hours, minutes, seconds')
+    m = prog.module('spyne.model.primitive.datetime')
+    pats = {}
+    for nm in ('OFFSET_PATTERN', 'DATE_PATTERN', 'TIME_PATTERN'):
+        v = m.consts.get(nm)
+        if v is None:
+            raise AnalysisError('spyne.model.primitive.datetime.' + nm,
+                                'constant not found')
+        ok, val = try_fold(prog, m, v)
+        if not ok or not isinstance(val, str):
+            res.unclass('R11', m.relpath, '%s does not fold to a string' % nm)
+            continue
+        pats[nm] = val
+    # finite domains of the groups (decided by evaluating the constant
+    # pattern over the domain: nothing of spyne is executed)
+    domains = {
+        'tz_hr': ['%s%02d' % (s_, h) for s_ in '+-' for h in range(15)],
+        'tz_min': ['%02d' % x for x in range(60)],
+        'month': ['%02d' % x for x in range(1, 13)],
+        'day': ['%02d' % x for x in range(1, 32)],
+        'hr': ['%02d' % x for x in range(25)],
+        'min': ['%02d' % x for x in range(60)],
+        'sec': ['%02d' % x for x in range(60)],
+        'year': ['0001', '1999', '2024', '9999'],
+    }
+    n = 0
+    for nm, val in sorted(pats.items()):
+        groups = named_groups(val)
+        for g, body in sorted(groups.items()):
+            if g not in domains:
+                continue
+            n += 1
+            try:
+                rx = re.compile('(?:%s)\\Z' % body)
+            except re.error as e:
+                res.unclass('R11', m.relpath, 'group %s of %s: %s' % (g, nm,
+                                                                       e))
+                continue
+            missing = [x for x in domains[g] if not rx.match(x)]
+            where = '%s:%d' % (m.relpath, m.consts[nm].lineno)
+            res.ob('R11', where, '%s group %s = %s admits %d/%d values of its '
+                   'XSD domain' % (nm, g, body, len(domains[g]) - len(missing),
+                                   len(domains[g])),
+                   'VIOLATED' if missing else 'ok', nontrivial=True)
+            if missing:
+                res.finding('R11', '%s|%s|domain' % (nm, g), where,
+                            'the lexical pattern of %s (%s) rejects %s ... '
+                            '(%d of %d values of the XSD domain): such '
+                            'literals fall through to a laxer pattern or are '
+                            'refused, e.g. a +14:00 offset is dropped' % (
+                                g, body, missing[:4], len(missing),
+                                len(domains[g])))
+    res.floor('R11', 'pattern groups with a finite XSD domain', n, 7)
+
+
+# ------------------------------------------------------------------ R12
+BINARY_TYPE_NAMES = {'BINARY_ENCODING_BASE64': 'base64Binary',
+                     'BINARY_ENCODING_HEX': 'hexBinary',
+                     'BINARY_ENCODING_URLSAFE_BASE64': 'string'}
+
+
+def rule_r12(prog, res):
+    res.rule('R12', 'each binary encoding is advertised as the XSD type whose '
+             'lexical space its alphabet fits')
+    c = prog.cls('spyne.model.binary:ByteArray')
+    f = c.methods.get('__new__')
+    if f is None:
+        raise AnalysisError('ByteArray.__new__', 'not found')
+    n = 0
+    for node in walk_no_defs(f.node):
+        if not isinstance(node, ast.If):
+            continue
+        for blk in (node.body,):
+            enc = None
+            tn = None
+            for st in blk:
+                if isinstance(st, ast.Assign) and "kwargs['encoding']" in \
+                        unparse(st.targets[0]) and isinstance(
+                        st.value, ast.Name):
+                    enc = st.value.id
+                if isinstance(st, ast.Assign) and unparse(
+                        st.targets[0]) == 'tn' and isinstance(
+                        st.value, ast.Constant):
+                    tn = st.value.value
+            if enc in BINARY_TYPE_NAMES:
+                n += 1
+                want = BINARY_TYPE_NAMES[enc]
+                ok = tn == want
+                where = '%s:%d' % (f.module.relpath, node.lineno)
+                res.ob('R12', where, 'ByteArray(encoding=%s) is advertised '
+                       'as xs:%s' % (enc, tn), 'ok' if ok else 'VIOLATED')
+                if not ok:
+                    res.finding('R12', 'ByteArray.__new__|%s|%s' % (enc, tn),
+                                where, 'values encoded with %s are published '
+                                'as xs:%s (expected xs:%s): the alphabet the '
+                                'writer uses (- and _ for urlsafe base64) is '
+                                'outside that type\'s lexical space, so '
+                                'spyne\'s own output fails its own schema' % (
+                                    enc, tn, want))
+    res.floor('R12', 'encoding branches in ByteArray.__new__', n, 3)
+
+
+def rule_r13(prog, res):
+    from . import c05
+    res.share('R13', 'fixed-width integers: max_str_len fits the longest '
+              'literal, sign included (C05-R3)', 'C05', c05.rule_r3, prog,
+              Result)
+
+
 def run(prog, res, tier):
     res.run_rule(rule_r1, prog, res)
     res.run_rule(rule_r2_r7, prog, res, tier)
@@ -582,6 +695,9 @@ def run(prog, res, tier):
     res.run_rule(rule_r8, prog, res)
     res.run_rule(rule_r9, prog, res)
     res.run_rule(rule_r10, prog, res)
+    res.run_rule(rule_r11, prog, res)
+    res.run_rule(rule_r12, prog, res)
+    res.run_rule(rule_r13, prog, res)
 
 
 _I = 'spyne/protocol/_inbase.py'
@@ -590,6 +706,21 @@ _B = 'spyne/model/binary.py'
 _S = 'spyne/protocol/soap/soap11.py'
 
 MUTANTS = [
+    Mutant('offset-hours-capped-at-12', 'R11', 'fire',
+           'spyne/model/primitive/datetime.py',
+           lambda src: src.replace(
+               "OFFSET_PATTERN = r'(?P<tz_hr>[+-]\\d{2}):(?P<tz_min>\\d{2})'",
+               "OFFSET_PATTERN = r'(?P<tz_hr>[+-](?:0\\d|1[0-2])):"
+               "(?P<tz_min>[0-5]\\d)'"), 'tz_hr'),
+    Mutant('offset-minutes-class', 'R11', 'benign',
+           'spyne/model/primitive/datetime.py',
+           lambda src: src.replace(
+               "OFFSET_PATTERN = r'(?P<tz_hr>[+-]\\d{2}):(?P<tz_min>\\d{2})'",
+               "OFFSET_PATTERN = r'(?P<tz_hr>[+-][0-9]{2}):"
+               "(?P<tz_min>[0-5][0-9])'"), None),
+    Mutant('urlsafe-advertised-as-base64', 'R12', 'fire', _B,
+           in_func('ByteArray.__new__', "                tn = 'string'\n",
+                   "                tn = 'base64Binary'\n"), 'ByteArray'),
     Mutant('naive-literal-converted', 'R8', 'fire', _I,
            in_func('InProtocolBase.datetime_from_unicode_iso',
                    "retval = retval.replace(tzinfo=astz)",
